@@ -440,6 +440,41 @@ class TimedToSequential(engines.engine.Engine, CompilerMixin):
                             )
                         )
             for oeef, oeel in old_end_effects.items():
+                incdec = [e for e in oeel if e.is_increase() or e.is_decrease()]
+                if len(incdec) > 1:
+                    # several increases/decreases of one fluent at the end accumulate: written
+                    # as independent assignments `f := f + v` only the last one would count
+                    simplifier = problem.environment.simplifier
+                    base = start_effects_subs.get(oeef, oeef)
+                    unconditional = all(e.condition == em.TRUE() for e in oeel)
+                    if len(incdec) != len(oeel) or (base != oeef and not unconditional):
+                        raise UPUnsupportedProblemTypeError(
+                            "several increase/decrease effects at end time on a fluent that is also assigned, or conditionally modified after a start time effect, are not supported"
+                        )
+                    if base == oeef:
+                        for oee in oeel:
+                            cond = simplifier.simplify(
+                                oee.condition.substitute(start_effects_subs)
+                            )
+                            value = simplifier.simplify(
+                                oee.value.substitute(start_effects_subs)
+                            )
+                            if oee.is_increase():
+                                new_action.add_increase_effect(oeef, value, cond)
+                            else:
+                                new_action.add_decrease_effect(oeef, value, cond)
+                    else:
+                        total = oeef
+                        for oee in oeel:
+                            if oee.is_increase():
+                                total = em.Plus(total, oee.value)
+                            else:
+                                total = em.Minus(total, oee.value)
+                        new_action.add_effect(
+                            oeef,
+                            simplifier.simplify(total.substitute(start_effects_subs)),
+                        )
+                    continue
                 for oee in oeel:
                     assert isinstance(oee, Effect)
                     new_value: Optional[FNode] = None
